@@ -44,6 +44,8 @@ def configs(tier):
         out.append(dict(name='collection_%dupdates' % k, kind='collection', k=k, weight=50 * k, chunk=20, chunk_s=30,
                         bound='SignalsCollection with SMA+momentum signals, dynamic universe of 2 assets with symbolic entry instants (one may be None), %d updates at symbolic increasing instants' % k,
                         twins=['late_entry', 'never_entered']))
+    from vf.props import session
+    out += session.configs_for('C16', tier)
     out.append(dict(name='session_loop_cadence', kind='loop', k=3 if tier == 'quick' else 4, weight=100, chunk=60, chunk_s=30,
                     bound='real BacktestTradingSession.run loop, %d events of any type at symbolic instants' % (3 if tier == 'quick' else 4),
                     twins=['updated']))
@@ -58,6 +60,9 @@ def make(cfg):
         return BadPrice(cfg)
     if k == 'collection':
         return Collection(cfg)
+    if k == 'session':
+        from vf.props import session
+        return session.make(cfg)
     from vf.props.c14 import Loop
     return Loop(cfg, prop='C16')
 
